@@ -369,6 +369,15 @@ def gen_program(r):
     # make inferiors/superiors of some names likely
     names += [names[0] + DELIM + r.choice(PARTS[:6]), r.choice(['INBOX', 'inbox', 'Inbox/x', 'INBOX/k'])]
     prog = []
+    if r.random() < 0.3:
+        # a name this session has already looked up, then gone by way of its superior (renamed or deleted above it): the next look-up is a
+        # plain NO, whatever the session remembers about the name
+        top, sub = r.choice(PARTS[:4]) + 'T', r.choice(PARTS[:4])
+        inf = top + DELIM + sub
+        names += [top, inf, top + 'moved', top + 'moved' + DELIM + sub]
+        prog += [['create', inf], [r.choice(['status', 'select', 'append']), inf], ['status', inf]]
+        prog += [['rename', top, top + 'moved']] if r.random() < 0.7 else [['delete', inf], ['create', inf], ['delete', inf]]
+        prog += [[k_, inf] for k_ in r.sample(['status', 'select', 'append', 'subscribe', 'delete'], 3)] + [['list', '', '*']]
     if r.random() < 0.25:
         # a destination that exists only as the superior of an existing mailbox, whose inferior collides with an inferior of the source:
         # whatever RENAME answers, the existing D/c must not be replaced
